@@ -6,7 +6,7 @@
 (* allows.  The log is linear (one process-wide sequence number), every      *)
 (* event is bound to one action; internal scheduling of the manager (which   *)
 (* scan started a client) is not logged and not needed: the acceptance       *)
-(* conditions are those of Manager!ScanStart / ClientSees / Exited / Quiet   *)
+(* conditions are those of Manager!ScanBuild / Subscribe / ClientSees / Exited / Quiet   *)
 (* projected on what is visible.                                             *)
 (*                                                                         *)
 (* Events: Reset | Op | Construct | RunEnter | RunExit | Points |            *)
